@@ -32,6 +32,15 @@ CLAIMED["C14"] = dict(engine="dotsim", design="4.7",
    text="Per run a seeded function is built inside an environment with seeded prior history and allocator churn (node ids are allocation addresses), exported with filters Any/True/False and through a fault-injecting writer, read back by an independent DOT reader and evaluated under all assignments; the same function built through another route in another environment must give an isomorphic graph; filtered exports must equal the unfiltered one minus the opposite leaf and its edges; generated formulas' syntax trees are exported and read back as terms with shared sub-terms. Exploration level; the writer-fault and address dimensions are the simulated part, diagrams/trees are sampled.",
    note="Trusted: /verif/sim's DOT reader (one statement per line, escape_default labels) and truth-table walker. Only diagrams interned in one environment are exported (the exporter identifies nodes by allocation on purpose). <= 6 variables.")
 
+CLAIMED["C10"] = dict(engine="clisim+iosim", design="4.4",
+   technique="deterministic simulation of the real rsbdd process (simulator owns argv, stdin chunking, files, ordering file, tick budget) against a truth-table reference model, with variant invocations over input channel and -b N; plus read-fault plans on the library's BufRead seam (T9)",
+   text="Each run prints a seeded formula (incl. wide read-once chains over up to 80 variables) through the real binary under a seeded configuration (channel, filter spelling, -t -v -m -r -b N, ordering file kind) and judges header, disjointness, row values, coverage per filter, -v lines and -m against an independent truth-table evaluator of the generated AST; 1-3 variant invocations (other channel, other -b N) must print byte-identical stdout; in process the same text through chunking/EINTR/hard-error read plans must give identical tokens, tree, variable tables and diagram. Exploration level: T7-T9 decide the channel/fault dimension proper, T1-T6 are as strong as the sampled formulas.",
+   note="Trusted: model::fast (AST printer + evaluator), model::table (stdout reader). The clock read by -b is observed, not controlled (its value reaches only stderr). <= 9 names for ordinary formulas; read-once chains for wide tables.")
+CLAIMED["C11"] = dict(engine="clisim", design="4.6",
+   technique="deterministic simulation of the real rsbdd process over ordering-file configurations (permutation, subset, superset, duplicates, junk) incl. the -r -> file -> -o round trip, against a by-name truth-table model; API orderings with id gaps in process",
+   text="Each run gives a seeded formula an ordering file of a seeded kind and judges the printed table by variable NAME against the reference evaluator and the header against the file's order; some runs repeat without -o and compare functions by name, some export the order with -r, feed it back with -o and require byte-identical output, some check ParsedFormula::new with an API ordering of distinct non-contiguous ids in process (function by name, free_vars/to_free_index, vars). Exploration level: the ordering/round-trip configuration is the simulated dimension, formulas are sampled.",
+   note="Trusted: model::fast, model::table. <= 9 names.")
+
 NOT_APPLICABLE = {
 }
 
